@@ -90,6 +90,18 @@ def run(ctx):
             if iso is not None and str(iso) not in data[e]:
                 ctx.fail_input("default-isotope", dict(element=e, which=which, isotope=iso),
                                "nmrdata.json: %s of %s is %s but there is no data for that isotope (every lookup with it raises)" % (which, e, iso), classify)
+    # a reference of exactly 0.0 in the three forms (witness of the repaired C10-F10c, replayed on every run)
+    try:
+        from ase import Atoms as _Atoms
+        a0 = _Atoms("HC", positions=[[0, 0, 0], [0, 0, 1.1]], cell=[6, 6, 6], pbc=True)
+        a0.set_array("ms", np.array([np.diag([1.0, 2.0, 3.0]), np.diag([4.0, 5.0, 9.0])]))
+        ctx.evaluations += 1
+        outs = [np.array(MSShift.get(a0.copy(), ref=r_), float) for r_ in (0.0, {"H": 0.0, "C": 0.0}, [0.0, 0.0])]
+        iso0 = np.array(MSIsotropy.get(a0.copy(), ref=0.0), float)
+        if not (np.allclose(outs[0], outs[1]) and np.allclose(outs[0], outs[2]) and np.allclose(outs[0], [-2.0, -6.0]) and np.allclose(iso0, outs[0])):
+            ctx.fail_input("ref0", dict(ref=0.0), "reference 0.0 as float / dict / list gives %s / %s / %s, MSIsotropy(ref=0.0) %s" % (outs[0], outs[1], outs[2], iso0), None)
+    except Exception as e:
+        ctx.fail_input("ref0", dict(ref=0.0), "reference 0.0 given as a float raised %s: %s" % (type(e).__name__, e), None)
     cases, meta = [], []
     N = 120 if quick else 2500
     for t in range(N):
@@ -228,7 +240,8 @@ def run(ctx):
                      ("MSReducedAnisotropy", lambda a, **k: MSReducedAnisotropy.get(a, **k)), ("MSAsymmetry", lambda a, **k: MSAsymmetry.get(a, **k)),
                      ("EFGVzz", lambda a, **k: EFGVzz.get(a, **k)), ("EFGAsymmetry", lambda a, **k: EFGAsymmetry.get(a, **k)), ("EFGAnisotropy", lambda a, **k: EFGAnisotropy.get(a, **k)),
                      ("EFGSpan", lambda a, **k: EFGSpan.get(a, **k)), ("EFGSkew", lambda a, **k: EFGSkew.get(a, **k)),
-                     ("EFGQuadrupolarConstant", lambda a, **k: EFGQuadrupolarConstant.get(a, **opts, **k)), ("EFGQuadrupolarProduct", lambda a, **k: EFGQuadrupolarProduct.get(a, **opts, **k))]
+                     ("EFGQuadrupolarConstant", lambda a, **k: EFGQuadrupolarConstant.get(a, **opts, **k)), ("EFGQuadrupolarProduct", lambda a, **k: EFGQuadrupolarProduct.get(a, **opts, **k)),
+                     ("EFGNQR", lambda a, **k: [v_ for d_ in EFGNQR.get(a, **opts, **k) for _k, v_ in sorted(d_.items())])]
             for pname, pf in props:
                 try:
                     want_ = np.array(pf(fresh.copy()), float)
